@@ -51,8 +51,8 @@ macro_rules! products {
         let d: &mut Drv = $d;
         type R = rm::$M<$T>;
         type C = cm::$M<$T>;
-        let a: Vec<Vec<$T>> = d.matn($n);
-        let b: Vec<Vec<$T>> = d.matn($n);
+        let a: Vec<Vec<$T>> = pattern(d.pat.0, d.matn($n));
+        let b: Vec<Vec<$T>> = pattern(d.pat.1, d.matn($n));
         let v: Vec<$T> = d.vecn($n);
         let s: $T = <$T as Lane>::gen(&mut d.rng);
         let (ar, ac, br, bc) = (R::from_rows(&a), C::from_rows(&a), R::from_rows(&b), C::from_rows(&b));
@@ -149,7 +149,11 @@ pub fn drive_products(args: &[String]) {
     let seed: u64 = arg_or(args, "--seed", "1").parse().unwrap();
     let lane = arg_or(args, "--lane", "q");
     let mut d = Drv::new(&arg(args, "--out").expect("--out"), seed);
-    for _ in 0..n {
+    // every third round uses structured operands (diagonal / triangular / affine / single row on either side)
+    const PATS: [(u8, u8); 9] = [(0, 0), (1, 0), (0, 1), (1, 1), (2, 1), (0, 3), (3, 3), (4, 0), (1, 2)];
+    let rounds = if lane == "sym" { n * PATS.len() } else { n };
+    for round in 0..rounds {
+        d.pat = if lane == "sym" { PATS[round % PATS.len()] } else if round % 3 == 2 { PATS[1 + (round / 3) % (PATS.len() - 1)] } else { (0, 0) };
         match lane.as_str() {
             "sym" => {
                 // free symbols: every recorded result is the polynomial the code computes for all inputs
@@ -201,10 +205,12 @@ fn inverses(d: &mut Drv) {
     type R = rm::Mat4<Q>;
     type C = cm::Mat4<Q>;
     // general inverse: random small rational matrices; every third one sparse / structured
-    let k = d.pick(4);
+    let k = d.pick(5);
     let a: Vec<Vec<Q>> = match k {
         0 => { let r = rot3(&mut d.rng); let s: Vec<Q> = (0..3).map(|_| nzq(&mut d.rng)).collect(); let t: Vec<Q> = (0..3).map(|_| smallq(&mut d.rng)).collect(); trs4(&r, &s, &t) }
         1 => { let mut m: Vec<Vec<Q>> = d.matn(4); for i in 0..4 { for j in 0..4 { if d.pick(3) == 0 { m[i][j] = Q::int(0); } } } m }
+        // exactly affine (last row 0 0 0 1) but with a general 3x3 block (shear, product of non-uniform scales and rotations)
+        2 => pattern(3, d.matn(4)),
         _ => d.matn(4),
     };
     let (ar, ac) = (R::from_rows(&a), C::from_rows(&a));
